@@ -10,6 +10,9 @@ pub mod c10;
 pub mod c10_build;
 pub mod c10_cfg;
 pub mod c10_ref;
+pub mod c11;
+pub mod c11_model;
+pub mod c11_wire;
 pub mod c12;
 pub mod c12_checks;
 pub mod c12_model;
@@ -39,6 +42,7 @@ pub fn all() -> Vec<Box<dyn Property>> {
         Box::new(c05::C05),
         Box::new(c09::C09),
         Box::new(c10::C10),
+        Box::new(c11::C11),
         Box::new(c12::C12),
         Box::new(c13::C13),
         Box::new(c14::C14),
